@@ -291,7 +291,7 @@ int main(int argc, char** argv) {
             auto classes = uni::u4Classes(false); long from = w.args.getInt("from", 0), cnt = w.args.getInt("count", 4); unsigned long long c = 0;
             for (long i = from; i < from + cnt; i++) { uni::placeAll(classes[(size_t)(i % (long)classes.size())], (int)w.args.getInt("wk", 2), P, visit, c, [&]() { return w.dl.hit(); }); if (w.dl.hit()) { R.exhaustive = false; break; } R.outcome(uni::className(classes[(size_t)(i % (long)classes.size())])); }
         }
-        else if (u == "perft") { auto seeds = uni::readSeeds(w.args.get("seeds", "corpus/seeds.fen")); uni::UPERFT(seeds, (int)w.args.getInt("depth", 2), P, [&](const orc::Board& b, unsigned long long, int) { symmetryOn(b); }); }
+        else if (u == "perft") { auto seeds = uni::readSeeds(w.args.get("seeds", "corpus/seeds.fen")); uni::UPERFT(seeds, (int)w.args.getInt("depth", 2), P, [&](const orc::Board& b, unsigned long long, int) { symmetryOn(b); }, 2, [&]() { return w.dl.hit(); }); if (w.dl.hit()) R.exhaustive = false; }
         else if (u == "5men") {
             // sub-lattice of the 5-men endgame-rule classes: KRPKR, KBPKB, KBPKN, KNPKB, KQKRP (white pawn on files a-d ranks 2-7, kings/pieces thinned)
             std::vector<std::vector<int>> cl = {{orc::WK, orc::BK, orc::WR, orc::WP, orc::BR}, {orc::WK, orc::BK, orc::WB, orc::WP, orc::BB}, {orc::WK, orc::BK, orc::WB, orc::WP, orc::BN}, {orc::WK, orc::BK, orc::WN, orc::WP, orc::BB}, {orc::WK, orc::BK, orc::WQ, orc::BR, orc::BP}};
